@@ -52,5 +52,7 @@ var propertyMeta = map[string]propMeta{
 	"C16": meta([]string{"22 independent symbolic schedule entries (non-zero 32-bit), arbitrary prior prices, GasProvided symbolic; equation asserted on funded sender-side executions", "argument sizes: smallest shapes plus SaveKeyValue pairs 0..2 bytes"}, []string{"factory GasScheduleChange broadcast over accepted/rejected maps (covered for construction only by C18)"}, true),
 	"C17": meta([]string{"one symbolic fault bit per call of SaveKeyValue(trie), LoadAccount, SaveAccount, Marshal, Unmarshal, IsPayable, AddToBalance, ChangeOwnerAddress, ClaimDeveloperRewards - every subset of faults on every path", "storage reads and the pause lookup are fail-soft by interface design (excluded by the property)"}, nil, true),
 	"C18": meta([]string{"epoch and activation epoch: all 2^32 x 2^32 values; prior state: never notified / one / two arbitrary notifications", "factory executed with a symbolic accepted schedule; container Keys() over 23 entries (2 iteration orders)"}, []string{"iteration orders of the 23-entry map beyond insertion order and its reverse"}, true),
+	"C19": meta([]string{"step 1: all sequential paths of every MutexMap method, every method of the atomic types and SetNewGasConfig + ProcessBuiltinFunction of the 15 mutex-guarded priced functions (smallest argument shapes)", "step 2: 2 goroutines x 1 operation each, scheduler decision before every mutex and atomic operation (all interleavings at that granularity): MutexMap (6 operations x 2 keys, 0..2 initial entries), function container (Add/Replace/Remove vs Get/Len/Keys), Counter.Add, Flag.Set, ProcessBuiltinFunction || SetNewGasConfig for ESDTNFTCreate, ESDTNFTAddURI, ESDTLocalMint"},
+		[]string{"more than 2 goroutines or more than 1 operation per goroutine; schedules of the Go runtime below synchronisation-operation granularity are covered only through the reduction: lockset discipline => no data race (paper argument), data-race freedom => sequentially consistent behaviour at sync granularity (Go memory model)", "the race detector itself is not run (another technique)", "epoch notifications concurrent with execution: the flag is an atomic cell (discipline checked), no behavioural interleaving harness"}, true),
 	"C20": meta([]string{"all 65 536 byte pairs per flag codec, lengths 0..4", "addresses of every length 0..40 with all bytes symbolic; identifiers 0..3 bytes", "SafeSubUint64: all 2^128 pairs", "MergeOutputAccounts: accounts over nil/present deltas (unbounded Int), nil/empty/1/2 storage updates over a shared 2-key universe, 0..2 transfers; write monitor over the merged-in account across two merges"}, nil, false),
 }
